@@ -504,11 +504,11 @@ impl Material {
         for _ in 0..mat_data.file_header.texture_count {
             let mut string = String::new();
 
-            let mut next_char = mat_data.strings[offset] as char;
+            let mut next_char = *mat_data.strings.get(offset)? as char;
             while next_char != '\0' {
                 string.push(next_char);
                 offset += 1;
-                next_char = mat_data.strings[offset] as char;
+                next_char = *mat_data.strings.get(offset)? as char;
             }
 
             texture_paths.push(string);
@@ -521,11 +521,11 @@ impl Material {
 
         offset = mat_data.file_header.shader_package_name_offset as usize;
 
-        let mut next_char = mat_data.strings[offset] as char;
+        let mut next_char = *mat_data.strings.get(offset)? as char;
         while next_char != '\0' {
             shader_package_name.push(next_char);
             offset += 1;
-            next_char = mat_data.strings[offset] as char;
+            next_char = *mat_data.strings.get(offset)? as char;
         }
 
         let mut constants = Vec::new();
@@ -535,7 +535,9 @@ impl Material {
             // TODO: use mem::size_of
             let num_floats = constant.value_size / 4;
             for i in 0..num_floats as usize {
-                values[i] = mat_data.shader_values[(constant.value_offset as usize / 4) + i];
+                *values.get_mut(i)? = *mat_data
+                    .shader_values
+                    .get((constant.value_offset as usize / 4) + i)?;
             }
 
             constants.push(Constant {
